@@ -838,3 +838,125 @@ Definition verify_proof (g : guards) (p : proofsel) : res unit :=
       if negb c then Err "core-claim" else
       _ <- binding g deep bd ;; Err "proof-not-supported"
   end.
+
+(* ------------------------------------------ iden3_serialization attribute (untrusted:
+   it comes from the schema context).  verifiable.ParseSerializationAttr
+   (core_utils.go): prefix, at most 4 '&'-separated parts, each `name=path` with a
+   known slot name.  Indexing a Go slice out of range panics: `nth_or_panic`. *)
+Fixpoint split_on (sep : ascii) (s : string) (cur : string) : list string :=
+  (* strings.Split(s, sep) for a one-byte separator; `cur` accumulates reversed *)
+  match s with
+  | EmptyString => [cur]
+  | String c t =>
+      if Ascii.eqb c sep then cur :: split_on sep t EmptyString
+      else split_on sep t (cur ++ String c EmptyString)
+  end.
+Definition go_split (sep : ascii) (s : string) : list string := split_on sep s EmptyString.
+
+Definition nth_or_panic {A} (l : list A) (i : nat) : res A :=
+  match nth_error l i with
+  | Some a => Ok a
+  | None => Panic "index out of range"
+  end.
+
+Fixpoint strip_prefix (p s : string) : option string :=
+  match p, s with
+  | EmptyString, _ => Some s
+  | String a p', String b s' => if Ascii.eqb a b then strip_prefix p' s' else None
+  | String _ _, EmptyString => None
+  end.
+
+Record slot_paths := mkslots { sp_ia : string; sp_ib : string; sp_va : string; sp_vb : string }.
+
+(* exact_two = true: the check is `len(kv) != 2` (the code in /repo);
+   false: `len(kv) > 2` - a slot name without '=' then reaches kv[1] *)
+Fixpoint ser_parts (exact_two : bool) (parts : list string) (acc : slot_paths) : res slot_paths :=
+  match parts with
+  | [] => Ok acc
+  | part :: rest =>
+      let kv := go_split "="%char part in
+      let n := List.length kv in
+      if (if exact_two then negb (Nat.eqb n 2) else Nat.ltb 2 n) then Err "part-format" else
+      k <- nth_or_panic kv 0 ;;
+      (if String.eqb k "slotIndexA" then
+         v <- nth_or_panic kv 1 ;; ser_parts exact_two rest (mkslots v (sp_ib acc) (sp_va acc) (sp_vb acc))
+       else if String.eqb k "slotIndexB" then
+         v <- nth_or_panic kv 1 ;; ser_parts exact_two rest (mkslots (sp_ia acc) v (sp_va acc) (sp_vb acc))
+       else if String.eqb k "slotValueA" then
+         v <- nth_or_panic kv 1 ;; ser_parts exact_two rest (mkslots (sp_ia acc) (sp_ib acc) v (sp_vb acc))
+       else if String.eqb k "slotValueB" then
+         v <- nth_or_panic kv 1 ;; ser_parts exact_two rest (mkslots (sp_ia acc) (sp_ib acc) (sp_va acc) v)
+       else Err "unknown-slot")
+  end.
+
+Definition parse_ser_attr_with (exact_two : bool) (attr : string) : res slot_paths :=
+  match strip_prefix "iden3:v1:" attr with
+  | None => Err "prefix"
+  | Some body =>
+      let parts := go_split "&"%char body in
+      if Nat.ltb 4 (List.length parts) then Err "too-many-parts"
+      else ser_parts exact_two parts (mkslots "" "" "" "")
+  end.
+Definition parse_ser_attr (attr : string) : res slot_paths := parse_ser_attr_with true attr.
+
+(* ------------------------------------------- merklize pathFromDocument (merklize.go):
+   the walk of a dotted path through a JSON document, as far as totality goes.  What
+   the JSON-LD context says about a term is data (`defined`: the term has a string
+   @id; scoped contexts that redefine terms along the way are not modelled).  The two
+   slice accesses, arr[i] and docObjT[0], are `nth_or_panic`. *)
+Inductive jv := JVNull | JVScalar | JVArr (l : list jv) | JVObj (m : list (string * jv)).
+
+(* one path segment: ^\d+$ (with its value) or anything else *)
+Inductive seg := SNum (z : Z) | SName (s : string).
+
+Inductive pathpart := PPName (s : string) | PPIdx (z : Z).
+
+Record pvariant := mkpv {
+  pv_zero_len : bool;   (* true: `len(docObjT) == 0` (the code);  false: `docObjT == nil`, never true for JSON [] *)
+  pv_bound_ge : bool    (* true: `i64 >= len(arr)` (the code);    false: `idx > len(arr)` *)
+}.
+Definition pv_repo : pvariant := mkpv true true.
+
+Fixpoint obj_get (m : list (string * jv)) (k : string) : jv :=
+  match m with
+  | [] => JVNull                      (* a missing member reads as nil *)
+  | (a, v) :: t => if String.eqb a k then v else obj_get t k
+  end.
+
+Fixpoint path_from_doc (pv : pvariant) (defined : string -> bool) (parts : list seg) (doc : jv)
+         (accept_array : bool) : res (list pathpart) :=
+  match parts with
+  | [] => Ok []
+  | SNum i :: rest =>
+      if 2147483647 <? i then Err "parse-int" else
+      match doc with
+      | JVArr arr =>
+          let n := Z.of_nat (List.length arr) in
+          if (if pv_bound_ge pv then n <=? i else n <? i) then Err "index-out-of-range" else
+          e <- nth_or_panic arr (Z.to_nat i) ;;
+          more <- path_from_doc pv defined rest e false ;;
+          Ok (PPIdx i :: more)
+      | other =>
+          more <- path_from_doc pv defined rest other true ;;
+          Ok (PPIdx i :: more)
+      end
+  | SName term :: rest =>
+      (* an array is entered once (its first element); a second array right below is refused *)
+      let enter (v : jv) (accept : bool) : res jv :=
+        match v with
+        | JVArr l =>
+            if pv_zero_len pv && Nat.eqb (List.length l) 0 then Err "zero-sized-array" else
+            if negb accept then Err "unexpected-array" else nth_or_panic l 0
+        | other => Ok other
+        end in
+      v1 <- enter doc accept_array ;;
+      v2 <- (match doc with JVArr _ => enter v1 false | _ => Ok v1 end) ;;
+      match v2 with
+      | JVObj m =>
+          if negb (defined term) then Err "no-term-id" else
+          more <- path_from_doc pv defined rest (obj_get m term) true ;;
+          Ok (PPName term :: more)
+      | JVArr _ => Err "unexpected-array"
+      | _ => Err "not-array-or-object"
+      end
+  end.
